@@ -103,6 +103,9 @@ func (p *pool) next(ctx context.Context) <-chan peer.ID {
 }
 
 func (p *pool) add(peers ...peer.ID) {
+	// lock order is cooldown queue first, then the pool, see putOnCooldown
+	p.cooldown.Lock()
+	defer p.cooldown.Unlock()
 	p.m.Lock()
 	defer p.m.Unlock()
 
@@ -114,6 +117,14 @@ func (p *pool) add(peers ...peer.ID) {
 
 		if !ok {
 			p.peersList = append(p.peersList, peerID)
+		}
+
+		// a peer that was removed while on cooldown still has its item in the cooldown queue. It
+		// stays on cooldown until that item expires: re-adding the peer must not cut the cooldown
+		// short, and the old item must not release a later cooldown of the same peer too early.
+		if p.cooldown.hasUnsafe(peerID) {
+			p.statuses[peerID] = cooldown
+			continue
 		}
 
 		p.statuses[peerID] = active
